@@ -396,26 +396,30 @@ def checkUintRange (d : Dbl) : Option Int :=
 /-- hardware count of a 32-bit shift (low 5 bits); the C operation is defined for 0 ≤ count < 32 only -/
 def shiftCount32 (b : Int) : Nat := (b % 32).toNat
 
-/-- `_vm_bitop(op, int32_t, ...)` / `_vm_bitop(op, uint32_t, ...)` on two numbers -/
+/-- `(type1)` with type1 = uint32_t / int32_t -/
+def wrap32 (unsigned : Bool) (x : Int) : Int := if unsigned then wrapU32 x else wrapS32 x
+
+/-- `(type1) (x1 op x2)` of `_vm_bitop`, on operands that passed the range checks -/
+def bitop32Value (unsigned : Bool) (oper : String) (x1 x2 : Int) : Option Int :=
+  match oper with
+  | "&" => some (wrap32 unsigned (natBit Nat.land x1 x2))
+  | "|" => some (wrap32 unsigned (natBit Nat.lor x1 x2))
+  | "^" => some (wrap32 unsigned (natBit Nat.xor x1 x2))
+  | "<<" => some (wrap32 unsigned (x1 * 2 ^ shiftCount32 x2))
+  | ">>" => some (wrap32 unsigned (x1 / 2 ^ shiftCount32 x2))
+  | _ => none
+
+/-- `_vm_bitop(op, int32_t, janet_checkintrange, ...)` / `_vm_bitop(op, uint32_t, janet_checkuintrange, ...)` on two numbers:
+    range check of the left operand, `janet_checkintrange` of the right one, the 32-bit operation, `janet_wrap_number` -/
 def bitop32 (unsigned : Bool) (oper : String) (b1 b2 : Nat) : Res Val :=
-  let x1? := if unsigned then checkUintRange (decode b1) else checkIntRange (decode b1)
-  match x1? with
+  match (if unsigned then checkUintRange (decode b1) else checkIntRange (decode b1)) with
   | none => .err (if unsigned then .range32u else .range32s)
   | some x1 =>
     match checkIntRange (decode b2) with
     | none => .err .rhs32
     | some x2 =>
-      let w : Int → Int := if unsigned then wrapU32 else wrapS32
-      let r : Option Int :=
-        match oper with
-        | "&" => some (natBit Nat.land x1 x2)
-        | "|" => some (natBit Nat.lor x1 x2)
-        | "^" => some (natBit Nat.xor x1 x2)
-        | "<<" => some (x1 * 2 ^ shiftCount32 x2)
-        | ">>" => some (x1 / 2 ^ shiftCount32 x2)
-        | _ => none
-      match r with
-      | some v => .ok (Val.ofInt (w v))
+      match bitop32Value unsigned oper x1 x2 with
+      | some v => .ok (Val.ofInt v)
       | none => .err .nomethod
 
 /-- `janet_compare` restricted to the value kinds considered (`none` = depends on link order) -/
